@@ -39,7 +39,7 @@ Sweep: C02.1 / C02.6 the accumulation over children and the placement walk over 
 Sixth round: C02.1 Server.remove gives capacity back additively (found by role); the fold of the children traits is judged on the attribute or on a local stored afterwards; C02.5 the cursor of each placement strategy indexes the sequence whose length bounds and wraps it, and the walk is left only on the wrap comparison (also through a named boolean).
 Seventh round: C02.6 the routines that decide whether an instance holds an identity test `is None`, never the truth value (identity 0 is an identity; shared with C05).
 Eighth round: C02.1 TraitSet.add stores the child's entry and folds the aggregate again on every path, TraitSet.remove skips the deletion only for a child without an entry; C02.7 the affinity of an instance is set by its constructor only (shared with C04.1).
-Ninth round: C02.4 the memo key keeps the level of every affinity limit - where the key closure reads the limits mapping, one read takes its items or a subscript per level (F19: Affinity.constraints carries sorted values only, so {'rack': 1} and {'server': 1} shared a record; repaired in /repo).
+Ninth round: C02.4 the memo key keeps the level of every affinity limit - where the key closure reads the limits mapping, one read takes its items or a subscript per level (F19: Affinity.constraints carries sorted values only, so {'rack': 1} and {'server': 1} shared a record; repaired in /repo). Also C02.4: a derived attribute (Allocation.constraints) covers a source attribute in the memo key only while every method that re-assigns the source refreshes it; C02.1 the recompute routine is located by role (it looks at the children) and a vector written through out= counts as a store.
 Does NOT decide the liveness statement as a whole (quiescent states reached
 by histories) nor the strategies' index arithmetic.
 """
